@@ -101,16 +101,15 @@ theorem exists_bracket (xs : List ℝ) (x : ℝ) (hne : xs ≠ [])
   · have : xs[k+1]'(by omega) = xs[Nat.find hP]'hj := by congr 1; omega
     rw [this]; exact hxj
 
-/-- **vec_1d_interp on one row**: on a non-decreasing row with head < x ≤ last the masks single out the
-unique bracket `xs[k] < x ≤ xs[k+1]`; the code's `lo` is `k+1`, its `hi` is `k`. -/
-theorem vecInterp1_spec (xs ys : List ℝ) (x : ℝ) (hmono : Bracket.Mono xs) (hne : xs ≠ [])
+/-- on a non-decreasing row with head < x ≤ last both xor masks have exactly one `true`: the upper mask at the lower
+node `k` of the unique bracket `xs[k] < x ≤ xs[k+1]`, the lower mask at `k+1` -/
+theorem masks_singleton (xs : List ℝ) (x : ℝ) (hmono : Bracket.Mono xs) (hne : xs ≠ [])
     (hfirst : xs.head hne < x) (hlast : x ≤ xs.getLast hne) :
     ∃ k, ∃ _ : k + 1 < xs.length, xs[k] < x ∧ x ≤ xs[k+1] ∧
-      vecInterp1 xs ys x = some (twoPoint x xs[k+1] (ys.getD (k+1) 0) xs[k] (ys.getD k 0)) := by
+      trueIdx (hiM xs x) = [k] ∧ trueIdx (loM xs x) = [k+1] := by
   obtain ⟨k, hk, h1, h2⟩ := exists_bracket xs x hne hfirst hlast
-  refine ⟨k, hk, h1, h2, ?_⟩
-  have hhi : trueIdx (hiM xs x) = [k] := by
-    apply trueIdx_singleton _ k (by rw [hiM_length]; omega)
+  refine ⟨k, hk, h1, h2, ?_, ?_⟩
+  · apply trueIdx_singleton _ k (by rw [hiM_length]; omega)
     intro i hi
     rw [hiM_length] at hi
     rw [hiM_eq, Bracket.hiM_get xs x hmono hne hlast i hi]
@@ -118,8 +117,7 @@ theorem vecInterp1_spec (xs ys : List ℝ) (x : ℝ) (hmono : Bracket.Mono xs) (
     · rintro ⟨hi1, ha, hb⟩
       exact Bracket.bracket_unique xs x hmono i k hi1 hk ⟨ha, hb⟩ ⟨h1, h2⟩
     · rintro rfl; exact ⟨hk, h1, h2⟩
-  have hlo : trueIdx (loM xs x) = [k+1] := by
-    apply trueIdx_singleton _ (k+1) (by rw [loM_length _ _ hne]; omega)
+  · apply trueIdx_singleton _ (k+1) (by rw [loM_length _ _ hne]; omega)
     intro i hi
     rw [loM_length _ _ hne] at hi
     rw [loM_eq]
@@ -137,9 +135,17 @@ theorem vecInterp1_spec (xs ys : List ℝ) (x : ℝ) (hmono : Bracket.Mono xs) (
       · intro hjk
         have : j = k := by omega
         subst this; exact ⟨h1, h2⟩
+
+/-- **vec_1d_interp on one row**: on a non-decreasing row with head < x ≤ last the masks single out the
+unique bracket `xs[k] < x ≤ xs[k+1]`; the code's `lo` is `k+1`, its `hi` is `k`. -/
+theorem vecInterp1_spec (xs ys : List ℝ) (x : ℝ) (hmono : Bracket.Mono xs) (hne : xs ≠ [])
+    (hfirst : xs.head hne < x) (hlast : x ≤ xs.getLast hne) :
+    ∃ k, ∃ _ : k + 1 < xs.length, xs[k] < x ∧ x ≤ xs[k+1] ∧
+      vecInterp1 xs ys x = some (twoPoint x xs[k+1] (ys.getD (k+1) 0) xs[k] (ys.getD k 0)) := by
+  obtain ⟨k, hk, h1, h2, hhi, hlo⟩ := masks_singleton xs x hmono hne hfirst hlast
+  refine ⟨k, hk, h1, h2, ?_⟩
   unfold vecInterp1
   rw [hhi, hlo]
-  simp only
   simp [List.getD_eq_getElem?_getD, List.getElem?_eq_getElem hk, List.getElem?_eq_getElem (by omega : k < xs.length)]
 
 /-! ### arithmetic of the two-point formula on a bracket -/
